@@ -12,6 +12,7 @@ import Driver.OpsTEI
 import Driver.OpsFPA
 import Driver.OpsMCTS
 import Driver.OpsPTN
+import Driver.OpsSolvers
 namespace Driver
 
 def handlers : List Handler := [
@@ -29,6 +30,7 @@ def handlers : List Handler := [
   handleMCTS,
   handlePTN,
   handleSearch,
+  handleSolvers,
 ]
 
 def step (st : St) (line : String) : St × String :=
@@ -36,7 +38,8 @@ def step (st : St) (line : String) : St × String :=
   | [] => (st, "")
   | "case" :: _ =>
     -- start of a stateful sequence: every module's session state is reset; only the basis table survives
-    ({ basis := st.basis }, "ok")
+    -- (and the C06 cache of the last solved game graph, a pure function of its root position)
+    ({ basis := st.basis, solvers := { graph := st.solvers.graph } }, "ok")
   | op :: args =>
     let rec go : List Handler → St × String
       | [] => (st, "bad-op")
